@@ -5,8 +5,8 @@ spec/regimes.json (committed; never written by a check run).
   /venv/bin/python tools/calibrate_c08.py [seeds...]
 
 Runs the thorough C08 workload for each seed, accumulates hits/misses per
-regime and classifies: enforced (>= 30 trials, miss rate <= 2%), gap (>= 8
-trials, otherwise), unmapped (fewer trials)."""
+regime and classifies: unmapped (< 20 trials), enforced (miss rate <= 2%),
+gap (otherwise).  RECLASSIFY=1 only re-applies the rule to the stored counts."""
 import json
 import os
 import subprocess
@@ -16,10 +16,11 @@ V = os.path.dirname(os.path.dirname(os.path.abspath(__file__)))
 seeds = [int(s) for s in sys.argv[1:]] or [101, 102]
 acc = {}
 path = os.path.join(V, 'spec', 'regimes.json')
-if os.path.exists(path) and os.environ.get('MERGE'):
+if os.path.exists(path) and (os.environ.get('MERGE') or
+                             os.environ.get('RECLASSIFY')):
   acc = {k: {'n': v['n'], 'miss': v['miss']}
          for k, v in json.load(open(path))['regimes'].items()}
-for s in seeds:
+for s in ([] if os.environ.get('RECLASSIFY') else seeds):
   env = dict(os.environ, VERIF_SEED=str(s))
   subprocess.run(['/venv/bin/python', '-m', 'vp.run', 'C08', '--tier',
                   os.environ.get('TIER', 'thorough'), '--jobs',
@@ -36,8 +37,8 @@ for k, a in sorted(acc.items()):
   if k.startswith('gmp-lcg/'):
     continue
   rate = a['miss'] / a['n']
-  status = 'enforced' if a['n'] >= 30 and rate <= 0.02 else \
-      'gap' if a['n'] >= 8 else 'unmapped'
+  status = 'unmapped' if a['n'] < 20 else \
+      'enforced' if rate <= 0.02 else 'gap'
   out[k] = {'n': a['n'], 'miss': a['miss'], 'status': status}
 json.dump({'_doc': 'C08 regime calibration on the unchanged tree (tools/'
            'calibrate_c08.py); regime = kind/curve class/width class/margin '
